@@ -282,6 +282,8 @@ def build_problem(run):
     kw = dict(x0=x0, lower_bounds=lb.reshape(1, D).copy(), upper_bounds=ub.reshape(1, D).copy(),
               plausible_lower_bounds=plb.reshape(1, D).copy(), plausible_upper_bounds=pub.reshape(1, D).copy(),
               non_box_cons=cons_wrapped)
+    if job.get("x0_dtype") and x0 is not None:
+        kw["x0"] = np.asarray(x0).astype(job["x0_dtype"])  # e.g. float32: the caller's dtype must not leak into the result
     if geo == "unb":
         kw["lower_bounds"] = None
         kw["upper_bounds"] = None
@@ -697,6 +699,16 @@ def install_observers(run, patch):
                         run.v("C18", "proposed point is not a generated candidate with that value", "es-point-not-candidate", "")
                 if np.any(allx < optim_state["lb_search"]) or np.any(allx > optim_state["ub_search"]):
                     run.v("C18", "ES candidate outside the mesh-rounded box", "es-candidate-outside", "")
+                # the mesh-rounded box recomputed from the hard box and the *current* search mesh (the stored one may be stale)
+                sm_ = float(optim_state["search_mesh_size"])
+                with np.errstate(all="ignore"):
+                    lbs_ = np.round(np.ravel(optim_state["lb"]) / sm_) * sm_
+                    lbs_ = np.where(lbs_ < np.ravel(optim_state["lb"]), lbs_ + sm_, lbs_)
+                    ubs_ = np.round(np.ravel(optim_state["ub"]) / sm_) * sm_
+                    ubs_ = np.where(ubs_ > np.ravel(optim_state["ub"]), ubs_ - sm_, ubs_)
+                if np.any(allx < lbs_ - 1e-12) or np.any(allx > ubs_ + 1e-12) or np.any(np.isnan(allx)):
+                    run.v("C18", "ES candidate outside the box rounded to the current search mesh", "es-candidate-outside-current-mesh",
+                          (float(np.nanmax(np.maximum(lbs_ - allx, allx - ubs_))), sm_))
                 if run.consf is not None:
                     xo = fl.variable_transformer.inverse_transf(allx)
                     if np.any(run.consf(xo)):
